@@ -159,8 +159,27 @@ def r_good_table(ck: Checker) -> None:
             ck.add(f"result function for #{inner.lower()} inside #{outer.lower()}", ok, func, site, f"function := {sorted(got)}; required {want}",
                    "a #sum helper may carry negative weights: unfolded into #sum+ they would be dropped, so the result must become #sum")
     # guards of the unfolding
+    # the counts come from InlineTranslator._info (checked in r_info) or, when that helper was folded into its caller, from the same expressions in place
+    if ck.prg.has_func(f"{CLS}._info"):
+        counts = "self._info(rule)[1] == 0 and self._info(rule)[0] == 1"
+        info = ck.func(f"{CLS}._info")
+        iti = ck.interp(info)
+        rp = info.params()[0]
+        want_info = (f"sum(len(collect_ast(b, 'BodyAggregate')) + len(collect_ast(b, 'Aggregate')) for b in {rp}.body)",
+                     f"any(len(collect_ast(b, 'ConditionalLiteral')) > 0 for b in {rp}.body)")
+        ck.need(bool(iti.returns), "_info returns its counts")
+        for ret, st in iti.returns:
+            val = iti.inline_locals(iti.expand(ret.value, st)) if ret.value is not None else None
+            parts = [unparse(e) for e in val.elts] if isinstance(val, ast.Tuple) else []
+            ok = len(parts) >= 2 and same(parts[0], want_info[0]) and same(parts[1], want_info[1])
+            ck.add("the helper's counts are: aggregates (body and plain) over the whole body, then whether any conditional literal occurs", ok, info, ret,
+                   f"returns `{short(unparse(val), 150) if val is not None else None}`",
+                   "the guards of the unfolding read position 0 as the number of aggregates and position 1 as the presence of conditional literals; a count that misses a kind lets a helper with two aggregates or a conditional literal be unfolded")
+    else:
+        counts = ("any(len(collect_ast(blit, 'ConditionalLiteral')) > 0 for blit in rule.body) == 0 and "
+                  "sum(len(collect_ast(blit, 'BodyAggregate')) + len(collect_ast(blit, 'Aggregate')) for blit in rule.body) == 1")
     conds = [
-        ("helper has no conditional literal and exactly one aggregate", "self._info(rule)[1] == 0 and self._info(rule)[0] == 1".replace("rule", func.params()[1]), ""),
+        ("helper has no conditional literal and exactly one aggregate", counts.replace("rule", func.params()[1]), ""),
         ("G3 result variable occurs exactly twice in the helper", None, ""),
         ("G4 no sibling tuple may unify", None, ""),
         ("the helper atom is used positively", "replace_cond.ast_type == ASTType.Literal and replace_cond.sign == Sign.NoSign", "a negated use is not an element of the sum"),
